@@ -17,6 +17,11 @@ def jobs(tier):
             assumptions=["representation invariant pnc_numfiles == #non-NULL slots characterises reachable tables (it is "
                          "re-established by every operation: proved here as post-condition)"],
             findings=["C17_checkid_null"]))
+    from props import C13 as _c13
+    for j in _c13.jobs(tier):          # C17.c: every MPI datatype created on the put path is freed (shared with C13.a)
+        if "C13.a." in j.oid:
+            j.oid = j.oid.replace("C13.a.put_var.buffer_unchanged", "C17.c.put_var.datatype_balance")
+            out.append(j)
     return out
 
 
